@@ -343,7 +343,7 @@ func buildValSpecs() []valSpec {
 	for _, t := range []struct {
 		n string
 		t time.Time
-	}{{"utc-ns", tsUTC}, {"zero", time.Time{}}, {"+05:30", tsZone}} {
+	}{{"utc-ns", tsUTC}, {"zero", time.Time{}}, {"+05:30", tsZone}, {"utc-ns-seen-from-+05:30", tsUTC.In(time.FixedZone("", 5*3600+30*60))}} {
 		t := t
 		add(valSpec{Name: "time:" + t.n, Kind: "time", Plain: t.n == "utc-ns", Mk: func() any { return t.t },
 			JSON: func(j any) string {
